@@ -98,6 +98,14 @@ pub enum Op {
     RmWatchAddr(u64),
     Detach,
     Drop,
+    /// C15: read n bytes at a
+    ReadMem(u64, usize),
+    /// C15: write one word at a (then verified and restored by the harness)
+    WriteWord(u64, u64),
+    /// C15: set a register, verify, restore
+    RegSet(String, u64),
+    /// C15: disassemble the current function
+    Disasm,
 }
 
 #[derive(Debug)]
@@ -300,6 +308,8 @@ impl<'a> Session<'a> {
             Op::RmAddr(a) => format!("RmAddr({})", self.off(*a)),
             Op::WatchMem(a, sz, rw) => format!("WatchMem({} {sz} {})", self.sym_off(*a), if *rw { "rw" } else { "w" }),
             Op::RmWatchAddr(a) => format!("RmWatchAddr({})", self.sym_off(*a)),
+            Op::ReadMem(a, n) => format!("ReadMem({} {n})", self.region_off(*a)),
+            Op::WriteWord(a, v) => format!("WriteWord({} {v:#x})", self.region_off(*a)),
             _ => format!("{op:?}"),
         };
         let name = format!("{op:?}");
@@ -503,6 +513,10 @@ impl<'a> Session<'a> {
                 unit(r)
             }
             Op::Drop => Outcome::Done, // handled by the caller (the debugger is dropped)
+            Op::ReadMem(a, n) => self.op_read_mem(dbg, *a, *n),
+            Op::WriteWord(a, v) => self.op_write_word(dbg, *a, *v),
+            Op::RegSet(r, v) => self.op_reg_set(dbg, r, *v),
+            Op::Disasm => self.op_disasm(dbg),
             Op::RmAddr(a) => {
                 let started = !matches!(self.pos, Where::NotStarted);
                 let addr = if started { Address::Relocated(RelocatedAddress::from(*a)) } else { Address::Relocated(RelocatedAddress::from(*a)) };
@@ -571,6 +585,266 @@ impl<'a> Session<'a> {
         }
     }
 
+
+    // ------------------------------------------------------------------ C15 operations
+
+    /// address as mapping-name+offset (the stack and heap move between kernels, logs must not)
+    fn region_off(&self, a: u64) -> String {
+        if matches!(self.pos, Where::NotStarted | Where::Exited) {
+            return format!("{a:#x}");
+        }
+        for m in ns::maps(self.pid) {
+            if a >= m.start && a < m.end {
+                let name = if m.path.is_empty() { "anon".to_string() } else { m.path.rsplit('/').next().unwrap_or("").to_string() };
+                return format!("{name}[{}]+{:#x}", m.perms, a - m.start);
+            }
+            if false && a == m.end {
+                let name = if m.path.is_empty() { "anon".to_string() } else { m.path.rsplit('/').next().unwrap_or("").to_string() };
+                return format!("{name}[{}]end", m.perms);
+            }
+        }
+        format!("unmapped:{a:#x}")
+    }
+
+    fn op_read_mem(&mut self, dbg: &mut Debugger, a: u64, n: usize) -> Outcome {
+        let live = !matches!(self.pos, Where::NotStarted | Where::Exited);
+        let reference = if live { if n == 0 { Some(vec![]) } else { ns::read_mem(self.pid, a, n) } } else { None };
+        let r = dbg.read_memory(a as usize, n);
+        if !live {
+            if r.is_ok() {
+                self.violate("C11", "wrong_state_accepted", format!("read_memory in state {:?} returned Ok", self.pos));
+            }
+            return match r {
+                Ok(_) => Outcome::Done,
+                Err(e) => Outcome::Err(err_str(&e)),
+            };
+        }
+        bump(&mut self.stats, "c15.read_checked");
+        match (&r, &reference) {
+            (Ok(got), Some(exp)) => {
+                bump(&mut self.stats, "c15.read_ok_compared");
+                if got != exp {
+                    let k = got.iter().zip(exp.iter()).position(|(x, y)| x != y).unwrap_or(got.len().min(exp.len()));
+                    self.violate("C15", "read_wrong_bytes", format!("read_memory({} , {n}) returned {} bytes, first difference at +{k}: got {:?} expected {:?}", self.region_off(a), got.len(), got.get(k), exp.get(k)));
+                }
+            }
+            (Ok(got), None) => {
+                self.violate("C15", "read_invented_bytes", format!("read_memory({}, {n}) returned {} bytes although part of the range is not readable", self.region_off(a), got.len()));
+            }
+            (Err(e), Some(_)) => {
+                // every requested byte is readable, yet the read failed
+                let end = a + n as u64;
+                let tail = ns::maps(self.pid).iter().any(|m| end <= m.end && end + 8 > m.end) && ns::read_mem(self.pid, a, n + 8 - (n % 8).max(0)).is_none();
+                let inv = if tail { "read_fails_near_mapping_end" } else { "read_failed_on_readable_range" };
+                self.violate("C15", inv, format!("read_memory({}, {n}) failed ({e}) although every requested byte is readable", self.region_off(a)));
+            }
+            (Err(_), None) => bump(&mut self.stats, "c15.read_fault_reported"),
+        }
+        match r {
+            Ok(_) => Outcome::Done,
+            Err(e) => Outcome::Err(err_str(&e)),
+        }
+    }
+
+    /// mirror of every readable private mapping around `a` (the mapping itself and its neighbours)
+    fn mirror_around(&self, a: u64) -> Vec<(u64, Vec<u8>)> {
+        let maps = ns::maps(self.pid);
+        let mut out = vec![];
+        let idx = maps.iter().position(|m| a >= m.start && a < m.end).or_else(|| maps.iter().position(|m| m.start > a));
+        let Some(i) = idx else { return out };
+        let lo = i.saturating_sub(1);
+        let hi = (i + 2).min(maps.len());
+        for m in &maps[lo..hi] {
+            if m.path.starts_with("[v") {
+                continue;
+            }
+            let len = ((m.end - m.start) as usize).min(1 << 20);
+            if let Some(b) = ns::read_mem(self.pid, m.start, len) {
+                out.push((m.start, b));
+            }
+        }
+        out
+    }
+
+    fn op_write_word(&mut self, dbg: &mut Debugger, a: u64, v: u64) -> Outcome {
+        let live = !matches!(self.pos, Where::NotStarted | Where::Exited);
+        if !live {
+            let r = dbg.write_memory(a as usize, v as usize);
+            if r.is_ok() {
+                self.violate("C11", "wrong_state_accepted", format!("write_memory in state {:?} returned Ok", self.pos));
+            }
+            return match r {
+                Ok(_) => Outcome::Done,
+                Err(e) => Outcome::Err(err_str(&e)),
+            };
+        }
+        let before = self.mirror_around(a);
+        let r = dbg.write_memory(a as usize, v as usize);
+        let after = self.mirror_around(a);
+        bump(&mut self.stats, "c15.write_checked");
+        let mut inside_changed = false;
+        // compare by absolute address over what was readable before *and* after (a write just
+        // below the stack makes the kernel grow the stack mapping: new pages are not judged)
+        let byte_after = |addr: u64| -> Option<u8> { after.iter().find(|(s1, b1)| addr >= *s1 && addr < *s1 + b1.len() as u64).map(|(s1, b1)| b1[(addr - s1) as usize]) };
+        'cmp: for (s0, b0) in before.iter() {
+            // fast path: identical region at the same place
+            if let Some((_, b1)) = after.iter().find(|(s1, b1)| s1 == s0 && b1.len() == b0.len()) {
+                if b1 == b0 {
+                    continue;
+                }
+            }
+            for k in 0..b0.len() {
+                let addr = s0 + k as u64;
+                let Some(now) = byte_after(addr) else { continue };
+                let within = addr >= a && addr < a + 8;
+                if within {
+                    let want = v.to_le_bytes()[(addr - a) as usize];
+                    if now != b0[k] {
+                        inside_changed = true;
+                    }
+                    if r.is_ok() && now != want {
+                        self.violate("C15", "write_wrong_value", format!("write_memory({}, {v:#x}) succeeded but byte +{} holds {now:#04x}, expected {want:#04x}", self.region_off(a), addr - a));
+                        break 'cmp;
+                    }
+                } else if now != b0[k] {
+                    self.violate("C15", "write_outside_range", format!("write_memory({}, {v:#x}) changed the byte at {} ({:#04x} -> {now:#04x}), outside [a, a+8)", self.region_off(a), self.region_off(addr), b0[k]));
+                    break 'cmp;
+                }
+            }
+        }
+        if r.is_ok() {
+            // bytes of the range that only became readable through the write itself
+            if let Some(nowb) = ns::read_mem(self.pid, a, 8) {
+                if nowb != v.to_le_bytes() {
+                    self.violate("C15", "write_wrong_value", format!("write_memory({}, {v:#x}) succeeded but the range holds {nowb:x?}", self.region_off(a)));
+                }
+            }
+        }
+        if r.is_ok() {
+            bump(&mut self.stats, "c15.write_ok");
+            if ns::read_mem(self.pid, a, 8).is_none() {
+                self.violate("C15", "write_invented_success", format!("write_memory({}) reported success although the range is not fully mapped", self.region_off(a)));
+            }
+        } else {
+            bump(&mut self.stats, "c15.write_fault_reported");
+            if inside_changed {
+                bump(&mut self.stats, "c15.write_failed_partially_written");
+            }
+        }
+        // restore: the program must continue unperturbed
+        for (s0, b0) in &before {
+            let lo = a.max(*s0);
+            let hi = (a + 8).min(*s0 + b0.len() as u64);
+            if lo < hi {
+                write_mem(self.pid, lo, &b0[(lo - s0) as usize..(hi - s0) as usize]);
+            }
+        }
+        match r {
+            Ok(_) => Outcome::Done,
+            Err(e) => Outcome::Err(err_str(&e)),
+        }
+    }
+
+    fn op_reg_set(&mut self, dbg: &mut Debugger, reg: &str, v: u64) -> Outcome {
+        let live = !matches!(self.pos, Where::NotStarted | Where::Exited);
+        if !live {
+            let r = dbg.set_register_value(reg, v);
+            if r.is_ok() {
+                self.violate("C11", "wrong_state_accepted", format!("set_register_value in state {:?} returned Ok", self.pos));
+            }
+            return match r {
+                Ok(_) => Outcome::Done,
+                Err(e) => Outcome::Err(err_str(&e)),
+            };
+        }
+        let Ok(before) = raw::getregs(self.pid) else { return Outcome::Err("getregs".into()) };
+        let r = dbg.set_register_value(reg, v);
+        bump(&mut self.stats, "c15.reg_checked");
+        let names = ["r15", "r14", "r13", "r12", "rbp", "rbx", "r11", "r10", "r9", "r8", "rax", "rcx", "rdx", "rsi", "rdi", "orig_rax", "rip", "cs", "eflags", "rsp", "ss", "fs_base", "gs_base", "ds", "es", "fs", "gs"];
+        let words = |r: &libc::user_regs_struct| -> [u64; 27] { unsafe { std::mem::transmute_copy(r) } };
+        let out = match &r {
+            Ok(()) => {
+                let after = raw::getregs(self.pid).unwrap_or(before);
+                let (b, a2) = (words(&before), words(&after));
+                for k in 0..27 {
+                    if names[k] == reg {
+                        if a2[k] != v {
+                            self.violate("C15", "register_not_written", format!("set_register_value({reg}, {v:#x}) succeeded but the kernel holds {:#x}", a2[k]));
+                        }
+                    } else if a2[k] != b[k] {
+                        self.violate("C15", "register_write_clobbers", format!("set_register_value({reg}) changed {} ({:#x} -> {:#x})", names[k], b[k], a2[k]));
+                    }
+                }
+                match dbg.get_register_value(reg) {
+                    Ok(g) if g == v => bump(&mut self.stats, "c15.reg_roundtrip_ok"),
+                    Ok(g) => self.violate("C15", "register_readback", format!("get_register_value({reg}) = {g:#x} after writing {v:#x}")),
+                    Err(e) => self.violate("C15", "register_readback", format!("get_register_value({reg}) failed: {e}")),
+                }
+                Outcome::Done
+            }
+            Err(e) => {
+                if names.contains(&reg) {
+                    self.violate("C15", "register_write_refused", format!("set_register_value({reg}, {v:#x}) failed: {e}"));
+                }
+                Outcome::Err(err_str(e))
+            }
+        };
+        // restore through the kernel, not through the debugger
+        let _ = raw::setregs(self.pid, &before);
+        out
+    }
+
+    fn op_disasm(&mut self, dbg: &mut Debugger) -> Outcome {
+        let r = dbg.disasm();
+        let j = match self.pos {
+            Where::At(j) => j,
+            _ => {
+                return match r {
+                    Ok(_) => Outcome::Done,
+                    Err(e) => Outcome::Err(err_str(&e)),
+                };
+            }
+        };
+        let rip = self.tr.pos[j].rip;
+        let Some((lo, sz)) = self.fn_syms.iter().find(|(a, s)| rip >= *a && rip < *a + *s).copied() else {
+            return match r {
+                Ok(_) => Outcome::Done,
+                Err(e) => Outcome::Err(err_str(&e)),
+            };
+        };
+        let asm = match r {
+            Ok(a) => a,
+            Err(e) => {
+                self.violate("C15", "disasm_failed", format!("disasm at {} failed: {e}", self.off(rip)));
+                return Outcome::Err(err_str(&e));
+            }
+        };
+        bump(&mut self.stats, "c15.disasm_checked");
+        let armed_inside = self.armed.keys().filter(|a| **a >= lo && **a < lo + sz).count();
+        if armed_inside > 0 {
+            bump(&mut self.stats, "c15.disasm_with_breakpoints_inside");
+        }
+        let bounds = match crate::linetab::insn_boundaries(Path::new(&self.bin)) {
+            Ok(b) => b,
+            Err(_) => return Outcome::Done,
+        };
+        let (glo, ghi) = (lo - self.tr.base, lo + sz - self.tr.base);
+        let exp: Vec<u64> = bounds.range(glo..ghi).copied().collect();
+        let got: Vec<u64> = asm.instructions.iter().map(|i| usize::from(i.address) as u64).collect();
+        if got != exp {
+            let k = got.iter().zip(exp.iter()).position(|(x, y)| x != y).unwrap_or(got.len().min(exp.len()));
+            self.violate("C15", "disasm_instruction_boundaries", format!("disassembly of the function at +{glo:x}..+{ghi:x} ({armed_inside} breakpoints armed inside) differs from llvm-objdump of the file at instruction {k}: got {:x?} expected {:x?} ({} vs {} instructions)", got.get(k), exp.get(k), got.len(), exp.len()));
+        }
+        for i in &asm.instructions {
+            let ga = usize::from(i.address) as u64;
+            if i.mnemonic.as_deref() == Some("int3") && self.file_byte(self.tr.base + ga) != Some(0xCC) {
+                self.violate("C15", "disasm_shows_patch", format!("disassembly shows int3 at +{ga:x} where the file has none"));
+                break;
+            }
+        }
+        Outcome::Done
+    }
+
     // ------------------------------------------------------------------ oracles
 
     fn pre_state(&mut self, op: &Op) -> Pre {
@@ -621,7 +895,7 @@ impl<'a> Session<'a> {
             let t0 = std::time::Instant::now();
             self.check_ledger();
             add(&mut self.stats, "time_us.ledger", t0.elapsed().as_micros() as u64);
-            if !matches!(op, Op::Call(..) | Op::CallBad(_)) {
+            if !matches!(op, Op::Call(..) | Op::CallBad(_) | Op::WriteWord(..)) {
                 self.check_pokes(hist);
             }
             self.check_debug_registers();
@@ -1463,6 +1737,14 @@ impl seam::World for DetachProbe {
     }
 }
 
+fn write_mem(pid: i32, addr: u64, data: &[u8]) -> bool {
+    use std::os::unix::fs::FileExt;
+    match std::fs::OpenOptions::new().write(true).open(format!("/proc/{pid}/mem")) {
+        Ok(f) => f.write_all_at(data, addr).is_ok(),
+        Err(_) => false,
+    }
+}
+
 /// offsetof(struct user, u_debugreg)
 pub const DR_OFFSET: u64 = 848;
 
@@ -1492,23 +1774,25 @@ struct Mix {
     call: usize,
     watch: usize,
     end: usize,
+    mem: usize,
 }
 
 fn mix_for(property: &str) -> Mix {
     match property {
-        "C01" => Mix { bp: 30, rm: 14, cont: 44, stepi: 8, step: 1, next: 1, finish: 2, restart: 0, call: 0, watch: 0, end: 0 },
-        "C03" => Mix { bp: 8, rm: 3, cont: 14, stepi: 15, step: 22, next: 22, finish: 16, restart: 0, call: 0, watch: 0, end: 0 },
-        "C05" => Mix { bp: 12, rm: 3, cont: 25, stepi: 35, step: 10, next: 5, finish: 10, restart: 0, call: 0, watch: 0, end: 0 },
-        "C11" => Mix { bp: 20, rm: 6, cont: 30, stepi: 6, step: 5, next: 5, finish: 5, restart: 5, call: 2, watch: 5, end: 8 },
-        "C14" => Mix { bp: 8, rm: 2, cont: 18, stepi: 6, step: 2, next: 2, finish: 6, restart: 6, call: 0, watch: 48, end: 2 },
-        "C16" => Mix { bp: 14, rm: 4, cont: 22, stepi: 8, step: 5, next: 5, finish: 5, restart: 1, call: 34, watch: 1, end: 1 },
-        _ => Mix { bp: 16, rm: 8, cont: 22, stepi: 8, step: 10, next: 10, finish: 10, restart: 3, call: 5, watch: 5, end: 3 },
+        "C01" => Mix { bp: 30, rm: 14, cont: 44, stepi: 8, step: 1, next: 1, finish: 2, restart: 0, call: 0, watch: 0, end: 0, mem: 0 },
+        "C03" => Mix { bp: 8, rm: 3, cont: 14, stepi: 15, step: 22, next: 22, finish: 16, restart: 0, call: 0, watch: 0, end: 0, mem: 0 },
+        "C05" => Mix { bp: 12, rm: 3, cont: 25, stepi: 35, step: 10, next: 5, finish: 10, restart: 0, call: 0, watch: 0, end: 0, mem: 0 },
+        "C11" => Mix { bp: 20, rm: 6, cont: 30, stepi: 6, step: 5, next: 5, finish: 5, restart: 5, call: 2, watch: 5, end: 8, mem: 0 },
+        "C14" => Mix { bp: 8, rm: 2, cont: 18, stepi: 6, step: 2, next: 2, finish: 6, restart: 6, call: 0, watch: 48, end: 2, mem: 0 },
+        "C15" => Mix { bp: 12, rm: 3, cont: 16, stepi: 5, step: 3, next: 3, finish: 4, restart: 1, call: 0, watch: 0, end: 1, mem: 52 },
+        "C16" => Mix { bp: 14, rm: 4, cont: 22, stepi: 8, step: 5, next: 5, finish: 5, restart: 1, call: 34, watch: 1, end: 1, mem: 0 },
+        _ => Mix { bp: 16, rm: 8, cont: 22, stepi: 8, step: 10, next: 10, finish: 10, restart: 3, call: 5, watch: 5, end: 3, mem: 0 },
     }
 }
 
 fn gen_op(s: &Session, t: &mut Tape, mix: &Mix, stmt_lines: &[u64], fns: &[String]) -> Op {
     let tr = s.tr;
-    let total = mix.bp + mix.rm + mix.cont + mix.stepi + mix.step + mix.next + mix.finish + mix.restart + mix.call + mix.watch + mix.end;
+    let total = mix.bp + mix.rm + mix.cont + mix.stepi + mix.step + mix.next + mix.finish + mix.restart + mix.call + mix.watch + mix.end + mix.mem;
     let mut k = t.choose(total);
     let mut take = |w: usize| {
         if k < w {
@@ -1600,7 +1884,68 @@ fn gen_op(s: &Session, t: &mut Tape, mix: &Mix, stmt_lines: &[u64], fns: &[Strin
     if take(mix.end) {
         return if t.chance(1, 2) { Op::Detach } else { Op::Drop };
     }
+    if take(mix.mem) {
+        return gen_mem_op(s, t);
+    }
     Op::Restart
+}
+
+/// C15 workload: addresses are drawn around every kind of boundary the word-granular ptrace
+/// accessors can trip over (mapping starts/ends, page and word boundaries, any alignment).
+fn gen_mem_op(s: &Session, t: &mut Tape) -> Op {
+    let live = !matches!(s.pos, Where::NotStarted | Where::Exited);
+    let maps: Vec<ns::MapEntry> = if live { ns::maps(s.pid).into_iter().filter(|m| !m.path.starts_with("[v")).collect() } else { vec![] };
+    let kind = t.choose(20);
+    if kind < 3 {
+        return Op::Disasm;
+    }
+    if kind < 7 {
+        let regs = ["rax", "rbx", "rcx", "rdx", "rdi", "rsi", "rbp", "rsp", "r8", "r9", "r10", "r11", "r12", "r13", "r14", "r15", "rip"];
+        let r = regs[t.choose(regs.len())];
+        let vals = [0u64, 1, 0xff, 0x7fff_ffff, 0x8000_0000, 0xffff_ffff, 0x1_0000_0000, 0x7fff_ffff_ffff_ffff, 0xdead_beef_cafe_f00d, u64::MAX];
+        let v = if r == "rip" { s.tr.pos[t.choose(s.tr.pos.len())].rip } else { vals[t.choose(vals.len())] };
+        return Op::RegSet(r.into(), v);
+    }
+    if maps.is_empty() {
+        return Op::ReadMem(0x1000 + t.choose(64) as u64, t.choose(32));
+    }
+    let m = &maps[t.choose(maps.len())];
+    // anchor: a boundary of the mapping or of a page inside it
+    let pages = ((m.end - m.start) / 4096).max(1);
+    let anchor = match t.choose(5) {
+        0 => m.start,
+        1 | 2 => m.end,
+        3 => m.start + 4096 * t.choose(pages as usize) as u64,
+        _ => m.start + t.choose((m.end - m.start) as usize) as u64 / 8 * 8,
+    };
+    let delta = t.choose(33) as i64 - 16;
+    let a = (anchor as i64 + delta).max(0) as u64;
+    if kind < 13 {
+        let n = match t.choose(8) {
+            0 => 0,
+            1 => 1 + t.choose(7),
+            2 => 8,
+            3 => 9 + t.choose(56),
+            4 => 4096 - 8 + t.choose(17),
+            5 => 4096 + t.choose(4096),
+            6 => 3 * 4096 - t.choose(9),
+            _ => 1 + t.choose(40),
+        };
+        return Op::ReadMem(a, n);
+    }
+    // writes go to writable data (or deliberately to read-only / unmapped places)
+    let w: Vec<&ns::MapEntry> = maps.iter().filter(|m| m.perms.starts_with("rw")).collect();
+    let m = if !w.is_empty() && t.chance(5, 6) { w[t.choose(w.len())] } else { m };
+    let pages = ((m.end - m.start) / 4096).max(1);
+    let anchor = match t.choose(4) {
+        0 => m.start,
+        1 => m.end,
+        2 => m.start + 4096 * t.choose(pages as usize) as u64,
+        _ => m.start + t.choose((m.end - m.start) as usize) as u64,
+    };
+    let a = (anchor as i64 + t.choose(25) as i64 - 12).max(0) as u64;
+    let vals = [0u64, u64::MAX, 0x0102_0304_0506_0708, 0xcccc_cccc_cccc_cccc, 0x8000_0000_0000_0001];
+    Op::WriteWord(a, vals[t.choose(vals.len())])
 }
 
 pub fn run(spec: &WorkerSpec) -> WorkerResult {
@@ -1633,7 +1978,7 @@ pub fn run(spec: &WorkerSpec) -> WorkerResult {
     // before start: a few breakpoint requests
     let pre = tape.choose(4);
     for _ in 0..pre {
-        let m = Mix { bp: 10, rm: 2, cont: 0, stepi: 0, step: 0, next: 0, finish: 0, restart: 0, call: 0, watch: 0, end: 0 };
+        let m = Mix { bp: 10, rm: 2, cont: 0, stepi: 0, step: 0, next: 0, finish: 0, restart: 0, call: 0, watch: 0, end: 0, mem: 0 };
         let op = gen_op(&s, &mut tape, &m, &stmt_lines, &fns);
         s.exec(&op);
     }
